@@ -145,8 +145,8 @@ def stream(run, shoot, npairs, nsets, tag):
         p = mh.Pair(i, spec)
         p.cases = gen_cases(run, spec, nsets, [0.0, 0.25, 0.6])
         pairs.append(p)
-    mh.execute(run, pairs, shoot=shoot, par=6, tag=tag)
-    verdicts, guards = mh.coq_verdicts(run, pairs, tag=tag, shard_cases=120, par=6)
+    mh.execute(run, pairs, shoot=shoot, par=4, tag=tag)
+    verdicts, guards = mh.coq_verdicts(run, pairs, tag=tag, shard_cases=120, par=4)
     return pairs, verdicts, guards
 
 
